@@ -422,6 +422,9 @@ type BlockCov struct {
 	Line  int
 	Block int
 	Hit   bool
+	// ErrPath: the block returns a non-nil error value or panics (an error/abort path: usually reachable only
+	// through a failure of the environment that the models do not produce)
+	ErrPath bool
 }
 
 // BlockCoverage lists the basic blocks of every compiled (i.e. entered at least once) function and of every
@@ -444,7 +447,7 @@ func (p *Program) BlockCoverage(want func(file string) bool) []BlockCov {
 				}
 			}
 			hit := info != nil && bi < len(info.blocks) && info.blocks[bi].hit != 0
-			out = append(out, BlockCov{Func: fn.String(), File: file, Line: line, Block: bi, Hit: hit})
+			out = append(out, BlockCov{Func: fn.String(), File: file, Line: line, Block: bi, Hit: hit, ErrPath: isErrPath(b)})
 		}
 	}
 	p.infos.Range(func(k, v any) bool {
@@ -462,3 +465,41 @@ func (p *Program) BlockCoverage(want func(file string) bool) []BlockCov {
 	}
 	return out
 }
+
+func isErrPath(b *ssa.BasicBlock) bool {
+	if len(b.Instrs) == 0 {
+		return false
+	}
+	switch last := b.Instrs[len(b.Instrs)-1].(type) {
+	case *ssa.Panic:
+		return true
+	case *ssa.Return:
+		for _, res := range last.Results {
+			if !types.Identical(res.Type(), errType) {
+				continue
+			}
+			if c, ok := res.(*ssa.Const); ok && c.IsNil() {
+				continue
+			}
+			// a phi / loaded named result may be nil at run time: only count values built in this block
+			if ins, ok := res.(ssa.Instruction); ok && ins.Block() == b {
+				return true
+			}
+		}
+	case *ssa.Jump:
+		// "retErr = ...; goto return block": stores of a fresh error into a named result followed by a jump
+		for _, ins := range b.Instrs {
+			if st, ok := ins.(*ssa.Store); ok && types.Identical(st.Val.Type(), errType) {
+				if c, ok := st.Val.(*ssa.Const); ok && c.IsNil() {
+					continue
+				}
+				if vi, ok := st.Val.(ssa.Instruction); ok && vi.Block() == b && len(b.Instrs) <= 6 {
+					return true
+				}
+			}
+		}
+	}
+	return false
+}
+
+var errType = types.Universe.Lookup("error").Type()
